@@ -75,6 +75,69 @@ mod grp {
     }
 }
 
+/// A zero time floor set at the benchmark: harmless, the run is complete.
+#[divan::bench(sample_count = 5, sample_size = 3, min_time = 0, threads = [1, 2])]
+fn a_5_3_t12_min0(b: Bencher) {
+    run("a_5_3_t12_min0");
+    b.bench(|| call("a_5_3_t12_min0"));
+}
+
+/// A zero time ceiling set at the benchmark: nothing is called.
+#[divan::bench(sample_count = 5, sample_size = 3, max_time = 0, threads = [1, 2])]
+fn a_5_3_t12_max0(b: Bencher) {
+    run("a_5_3_t12_max0");
+    b.bench(|| call("a_5_3_t12_max0"));
+}
+
+#[divan::bench_group(min_time = 0, sample_count = 4)]
+mod gmin0 {
+    use super::{call, run};
+    use divan::Bencher;
+
+    /// floor 0 from the group, count from the group, size own
+    #[divan::bench(sample_size = 2, threads = [1, 3])]
+    fn g_4_2_t13_min0(b: Bencher) {
+        run("g_4_2_t13_min0");
+        b.bench(|| call("g_4_2_t13_min0"));
+    }
+}
+
+#[divan::bench_group(max_time = 0)]
+mod gmax0 {
+    use super::{call, run};
+    use divan::Bencher;
+
+    /// ceiling 0 inherited from the group: nothing is called
+    #[divan::bench(sample_count = 3, sample_size = 2, threads = [1, 2])]
+    fn g_3_2_t12_max0(b: Bencher) {
+        run("g_3_2_t12_max0");
+        b.bench(|| call("g_3_2_t12_max0"));
+    }
+
+    /// the benchmark's own ceiling wins over the group's zero
+    #[divan::bench(sample_count = 3, sample_size = 2, threads = [1, 2], max_time = 100)]
+    fn g_3_2_t12_max100(b: Bencher) {
+        run("g_3_2_t12_max100");
+        b.bench(|| call("g_3_2_t12_max100"));
+    }
+}
+
+/// `HX_BUILDER`: `;`-separated builder calls (`sample_count=7`, `sample_size=3`,
+/// `threads=1,2`, `min_time=SECS`, `max_time=SECS`) applied to `Divan::default()`
+/// BEFORE `config_with_args()`, as a `main` that pre-configures the runner does.
 fn main() {
-    divan::main();
+    let spec = std::env::var("HX_BUILDER").unwrap_or_default();
+    let mut d = divan::Divan::default();
+    for c in spec.split(';').filter(|c| !c.is_empty()) {
+        let (k, v) = c.split_once('=').expect("builder call");
+        d = match k {
+            "sample_count" => d.sample_count(v.parse().expect("count")),
+            "sample_size" => d.sample_size(v.parse().expect("size")),
+            "threads" => d.threads(v.split(',').map(|t| t.parse::<usize>().expect("threads")).collect::<Vec<_>>()),
+            "min_time" => d.min_time(std::time::Duration::from_secs_f64(v.parse().expect("secs"))),
+            "max_time" => d.max_time(std::time::Duration::from_secs_f64(v.parse().expect("secs"))),
+            other => panic!("unknown builder call {other}"),
+        };
+    }
+    d.config_with_args().main();
 }
